@@ -2,7 +2,7 @@
    Statements only; each is closed by [exact] of a lemma proved elsewhere.
    [den strict m mid caps p v] (Value/Den.v): pointer p of message m denotes the value v --
    defined directly on the bytes (no limits, independent of p's depth limit). *)
-From CV Require Import Value.ValueEq Value.ValueEqProofs Value.EqualM Value.Den Value.EqualCorrect Value.EqualProofs.
+From CV Require Import Value.ValueEq Value.ValueEqProofs Value.EqualM Value.Den Value.EqualCorrect Value.EqualProofs Value.EqualSym Value.VDec Value.VDecProofs.
 From CV Require Import Core.ReaderFacts.
 Open Scope Z_scope.
 
@@ -66,6 +66,23 @@ Theorem C17_equal_sym : forall c fx x fuel st1 st2 p q b1 b2 st1' st2' va vb,
   den true (segs_of x SA) 0 (caps_of x SA) q vb -> b1 = b2.
 Proof. exact equal_sym. Qed.
 Print Assumptions C17_equal_sym.
+
+(* symmetric across two messages: Equal(p, q) over (A, B) and Equal(q, p) over (B, A) agree *)
+Theorem C17_equal_sym_two_messages : forall c fx x fuel st1 st2 p q b1 b2 st1' st2' va vb,
+  cfg_strict c = true -> all_fixed fx -> msg_ok (ec_segs_a x) -> msg_ok (ec_segs_b x) -> ec_same x = false ->
+  equal_m fuel c fx x st1 p q = (EOk b1, st1') ->
+  equal_m fuel c fx (swap_x x) st2 q p = (EOk b2, st2') ->
+  den true (ec_segs_a x) 0 (ec_caps_a x) p va ->
+  den true (ec_segs_b x) 1 (ec_caps_b x) q vb -> b1 = b2.
+Proof. exact equal_sym_two_messages. Qed.
+Print Assumptions C17_equal_sym_two_messages.
+
+(* the value the correspondence harness evaluates value_eq on (the executable decoder vdec, used
+   whenever both walked trees are complete) IS a value in the sense of the theorems above *)
+Theorem C17_vdec_den : forall fuel lcap m mid caps p v,
+  vdec fuel lcap m mid caps p = Some v -> den true m mid caps p v.
+Proof. exact vdec_den. Qed.
+Print Assumptions C17_vdec_den.
 
 (* non-vacuity: the hypotheses are satisfiable (a root struct holding a bit list) *)
 Theorem C17_den_example :
